@@ -81,11 +81,7 @@ func Common(pkg string) string {
 
 const commonBody = `
 
-import (
-	"errors"
-	"strconv"
-	"strings"
-)
+// No imports on purpose: goderive type-checks the imports of a package from source on every run.
 
 type NI int
 type NS string
@@ -113,26 +109,66 @@ func hh(tag, j int, a []int) int {
 	return s%89 + 1
 }
 
+func itoa(n int) string {
+	if n < 0 {
+		return "-" + itoa(-n)
+	}
+	if n < 10 {
+		return string(rune('0' + n))
+	}
+	return itoa(n/10) + string(rune('0'+n%10))
+}
+
+// atoi parses a non-empty string of decimal digits; -1 otherwise.
+func atoi(s string) int {
+	if s == "" {
+		return -1
+	}
+	n := 0
+	for _, c := range s {
+		if c < '0' || c > '9' {
+			return -1
+		}
+		n = n*10 + int(c-'0')
+	}
+	return n
+}
+
+func join(ss []string, sep string) string {
+	out := ""
+	for i, s := range ss {
+		if i > 0 {
+			out += sep
+		}
+		out += s
+	}
+	return out
+}
+
 func joinInts(a []int, sep string) string {
 	ss := make([]string, len(a))
 	for i, x := range a {
-		ss[i] = strconv.Itoa(x)
+		ss[i] = itoa(x)
 	}
-	return strings.Join(ss, sep)
+	return join(ss, sep)
 }
 
+type fxErr struct{ s, k int }
+
+func (e *fxErr) Error() string { return "e" + itoa(e.s) + "." + itoa(e.k) }
+
 func logArgs(a []int)           { Log = append(Log, joinInts(a, ".")) }
-func logStage(i int, a []int)   { Log = append(Log, strconv.Itoa(i)+":"+joinInts(a, ".")) }
-func outcome(res []int) string  { return "r:" + joinInts(res, ",") + ";l:" + strings.Join(Log, "|") }
+func logStage(i int, a []int)   { Log = append(Log, itoa(i)+":"+joinInts(a, ".")) }
+func outcome(res []int) string  { return "r:" + joinInts(res, ",") + ";l:" + join(Log, "|") }
 func outcomeE(res []int, err error) string {
-	return "r:" + joinInts(res, ",") + ";e:" + showErr(err) + ";l:" + strings.Join(Log, "|")
+	return "r:" + joinInts(res, ",") + ";e:" + showErr(err) + ";l:" + join(Log, "|")
 }
 func outcomeT(isNil bool, out []int, err error) string {
 	o := "[" + joinInts(out, ",") + "]"
 	if isNil {
 		o = "nil"
 	}
-	return "o:" + o + ";e:" + showErr(err) + ";l:" + strings.Join(Log, "|")
+	return "o:" + o + ";e:" + showErr(err) + ";l:" + join(Log, "|")
 }
 
 var errTab = map[[2]int]error{}
@@ -143,7 +179,7 @@ func errOf(s, k int) error {
 	if e, ok := errTab[key]; ok {
 		return e
 	}
-	e := errors.New("e" + strconv.Itoa(s) + "." + strconv.Itoa(k))
+	var e error = &fxErr{s, k}
 	errTab[key] = e
 	return e
 }
@@ -154,7 +190,7 @@ func showErr(e error) string {
 	}
 	for k, v := range errTab {
 		if v == e {
-			return strconv.Itoa(k[0]) + "." + strconv.Itoa(k[1])
+			return itoa(k[0]) + "." + itoa(k[1])
 		}
 	}
 	return "other"
@@ -173,14 +209,14 @@ func mk1(n int) string {
 	if n == 0 {
 		return ""
 	}
-	return strconv.Itoa(n)
+	return itoa(n)
 }
 func ob1(v string) int {
 	if v == "" {
 		return 0
 	}
-	n, err := strconv.Atoi(v)
-	if err != nil || n == 0 {
+	n := atoi(v)
+	if n <= 0 {
 		return -1
 	}
 	return n
